@@ -46,6 +46,12 @@ func (p propSpec) Deadline(tier int) time.Duration { return p.DeadlineT[tier] }
 const techSX = "symbolic execution of the real code's go/ssa (GoSX) with SMT (z3) deciding every branch and assertion over all values of the symbolic inputs within the stated bounds; counterexamples replayed natively"
 
 var properties = map[string]propSpec{
+	"C16": {
+		Level: "model_checking", Technique: techSX + "; a harness-side printer with symbolic layout/style choices feeds the real parser",
+		Bounds:  [2]string{"trees of depth <= 2 over {not, and, or, any/all in 4 binding modes} with one symbolic leaf (symbolic identifier byte, 8 operators, 4 selector spellings, 5 literal styles with a symbolic byte) and fixed other leaves; per node: optional/required whitespace drawn from {none, space, tab, newline, CR, double}, redundant parentheses; all 4 and/or chains of three operands; quoted literals: 2 verbatim bytes, 2 raw bytes, every single byte via \\xHH, a corpus of nasty strings", "trees of depth <= 3"},
+		Outside: "deeper trees; more than one symbolic leaf per tree; literals longer than 2 symbolic bytes; `\\\"` inside double quotes is not expressible in the language (literal ends at the first quote)",
+		StepBudget: 600_000_000,
+	},
 	"C15": {
 		Level: "model_checking", Technique: techSX + "; differential against a hand-written ordered-choice recogniser/AST builder executed on the same symbolic bytes",
 		Bounds:  [2]string{"every byte string of length <= 3; 110 corpus strings (accepting and rejecting, every language-boundary fact of DESIGN.md Appendix B) concretely; for a seed-selected quarter of the corpus every position with one byte replaced by / one byte inserted as an unconstrained byte; token templates with symbolic token contents", "every byte string of length <= 4; windows over the whole corpus"},
